@@ -77,15 +77,21 @@ impl SubscriptionTrie {
     }
 
     let final_node_r = current_node_arc.read();
-    let old_count = final_node_r.count.fetch_sub(1, Ordering::Relaxed);
-
-    if old_count > 0 {
-      tracing::debug!(topic = ?String::from_utf8_lossy(topic), new_count = old_count - 1, "Unsubscribed");
-      old_count == 1
-    } else {
-      final_node_r.count.fetch_add(1, Ordering::Relaxed);
-      tracing::warn!(topic = ?String::from_utf8_lossy(topic), "Unsubscribe attempt on topic with zero count");
-      false
+    // Decrement only if the count is positive, in one atomic step: a plain fetch_sub on a
+    // zero count wraps to usize::MAX until it is compensated, and a concurrent `matches`
+    // would see the topic as subscribed in between.
+    match final_node_r
+      .count
+      .fetch_update(Ordering::Relaxed, Ordering::Relaxed, |c| c.checked_sub(1))
+    {
+      Ok(old_count) => {
+        tracing::debug!(topic = ?String::from_utf8_lossy(topic), new_count = old_count - 1, "Unsubscribed");
+        old_count == 1
+      }
+      Err(_) => {
+        tracing::warn!(topic = ?String::from_utf8_lossy(topic), "Unsubscribe attempt on topic with zero count");
+        false
+      }
     }
   }
 
